@@ -123,16 +123,52 @@ impl Problem {
         self
     }
 
+    /// A symbolic constant and a propositional predicate of the same name cannot both be declared.
+    /// The predicate is renamed (p -> p_p, or p_p1, p_p2, ... if that name is taken): predicates are
+    /// uninterpreted, whereas a renamed symbolic constant would take another place in the order of symbols
     pub fn rename_conflicting_symbols(mut self) -> Self {
-        let propositional_predicates =
-            IndexSet::from_iter(self.predicates().into_iter().filter(|p| p.arity == 0));
+        use crate::{
+            convenience::apply::Apply as _,
+            syntax_tree::fol::sigma_0::{Atom, AtomicFormula},
+        };
 
-        let formulas = self
-            .formulas
-            .into_iter()
-            .map(|f| f.rename_conflicting_symbols(&propositional_predicates))
-            .collect();
-        self.formulas = formulas;
+        let symbols = self.symbols();
+        let mut occupied: IndexSet<String> = symbols.clone();
+        occupied.extend(self.predicates().into_iter().map(|p| p.symbol));
+        occupied.extend(self.function_constants().into_iter().map(|c| c.name));
+
+        let mut renaming = indexmap::IndexMap::new();
+        for predicate in self.predicates() {
+            if predicate.arity == 0 && symbols.contains(&predicate.symbol) {
+                let mut name = format!("{}_p", predicate.symbol);
+                let mut i = 0usize;
+                while occupied.contains(&name) {
+                    i += 1;
+                    name = format!("{}_p{i}", predicate.symbol);
+                }
+                occupied.insert(name.clone());
+                renaming.insert(predicate.symbol, name);
+            }
+        }
+
+        if !renaming.is_empty() {
+            for f in self.formulas.iter_mut() {
+                f.formula = std::mem::replace(&mut f.formula, Formula::AtomicFormula(AtomicFormula::Truth)).apply(
+                    &mut |formula| match formula {
+                        Formula::AtomicFormula(AtomicFormula::Atom(a)) if a.terms.is_empty() => {
+                            match renaming.get(&a.predicate_symbol) {
+                                Some(name) => Formula::AtomicFormula(AtomicFormula::Atom(Atom {
+                                    predicate_symbol: name.clone(),
+                                    terms: vec![],
+                                })),
+                                None => Formula::AtomicFormula(AtomicFormula::Atom(a)),
+                            }
+                        }
+                        x => x,
+                    },
+                );
+            }
+        }
         self
     }
 
